@@ -175,6 +175,8 @@ def c03(rec, tier):
     f2_emit.run_provenance(rec, S)
     f9_casts.run_receiver_soundness(rec, F, S)
     f4_cache.run(rec, F)  # super.m / obj.m must not be answered from another class's cache entry
+    # the caches hold raw class/method pointers: an entry that outlives its class (address reused) dispatches to another class
+    f5_trace.run(rec, F, only_adts=("laythe_vm::vm::Vm", "laythe_vm::cache::InlineCache"))
 
 
 def c04(rec, tier):
